@@ -122,6 +122,14 @@ Definition validate (p : parsed) : option prule :=
 
 (* ---- declarative reading of a line given as items ---- *)
 Inductive fitem := FFlag (name : string) (v : str) | FDel | FStray (w : str) | FTerm.
+(* canonical rendering of a line's items: "-x value", "-D", "--" *)
+Definition render_item (it : fitem) : list str :=
+  match it with
+  | FFlag n v => [l ("-" ++ n)%string; v]
+  | FDel => [l "-D"]
+  | FStray w => [w]
+  | FTerm => [l "--"]
+  end.
 Fixpoint apply_items (p : parsed) (its : list fitem) : option parsed :=
   match its with
   | [] => Some p
